@@ -1386,6 +1386,32 @@ pub fn run_sock_frames(ctx: &Ctx) -> i32 {
                             }
                         }
                     }
+                    // one more delivery of the same bytes: everything in one write with the FIN right behind it
+                    // (a one-shot client). The data and the end of the stream are then queued together; the
+                    // server must still execute and answer everything before it acts on the end of the stream
+                    if let Some(b) = &base {
+                        if stream.len() > 2500 || c % 4 == 0 {
+                            if let Ok(srv) = Server::start(SrvCfg { item_limit: limit, idle_s: 2, ..Default::default() }) {
+                                if let Ok(mut cl) = Cli::connect(srv.port) {
+                                    use std::io::Write;
+                                    let _ = cl.s.write_all(&stream);
+                                    cl.sent += stream.len() as u64;
+                                    cl.half_close();
+                                    cl.read_to_end(Duration::from_secs(4));
+                                    evals += 1;
+                                    *local.entry("one_shot_deliveries(write + FIN)".into()).or_insert(0) += 1;
+                                    if cl.end != End::Reset && cl.rx != b.rx {
+                                        let mut d = describe(&[]);
+                                        d["observed"] = json!({"end": format!("{:?}", cl.end), "rx_len": cl.rx.len(), "base_rx_len": b.rx.len(), "stream_len": stream.len()});
+                                        shared.lock().unwrap().violation(
+                                            Viol::new(&["C09", "C18", "C12"], "fin-behind-data", format!("socket: the whole stream ({} bytes) written at once with the FIN right behind it produced {} response bytes, the same stream with the sending side left open {} bytes", stream.len(), cl.rx.len(), b.rx.len())),
+                                            d,
+                                        );
+                                    }
+                                }
+                            }
+                        }
+                    }
                     if c < 2 {
                         shared.lock().unwrap().sample(describe(&[]));
                     }
